@@ -70,6 +70,10 @@ theorem server_stop_clears (s : SD.St) (hd : s.dead = false) (hrun : s.running =
     · simp
     · exact ih
 
+theorem skel_cpStop16 : Gen.Skeletons.cpStop16 = Ocpp.Expected.cpStop16 := by decide
+theorem skel_cpStop201 : Gen.Skeletons.cpStop201 = Ocpp.Expected.cpStop201 := by decide
+theorem skel_cpAsyncHandler16 : Gen.Skeletons.cpAsyncHandler16 = Ocpp.Expected.cpAsyncHandler16 := by decide
+theorem skel_cpAsyncHandler201 : Gen.Skeletons.cpAsyncHandler201 = Ocpp.Expected.cpAsyncHandler201 := by decide
 theorem skel_cdStart : Gen.Skeletons.cdStart = Ocpp.Expected.cdStart := by decide
 theorem skel_cdStop : Gen.Skeletons.cdStop = Ocpp.Expected.cdStop := by decide
 theorem skel_jcStart : Gen.Skeletons.jcStart = Ocpp.Expected.jcStart := by decide
